@@ -108,6 +108,10 @@ class ForeignEval:
                         if isinstance(st, ast.Assign) and any(isinstance(t, ast.Name) and t.id == name for t in st.targets):
                             if isinstance(st.value, ast.Constant) and st.value.value is None:
                                 return ("none", None, c)
+                            if isinstance(st.value, ast.Name):
+                                local = self.prog.methods_of(c.node).get(st.value.id)  # function defined in the class body
+                                if local is not None:
+                                    return ("src", local, c)
                             r = self.prog.resolve_expr(c.node._module, st.value)
                             if isinstance(r, DefRef) and isinstance(r.node, ast.FunctionDef):
                                 return ("src", r.node, c)
